@@ -1,10 +1,15 @@
 #![allow(dead_code)]
 mod bigint;
+mod c11;
 mod c12;
+mod gen;
 mod json;
+mod lin;
 mod out;
 mod rng;
+mod scen;
 mod selftest;
+mod spl;
 mod xrat;
 
 pub struct Cfg {
@@ -31,10 +36,17 @@ fn main() {
         }
     }
     // panics inside the crate are caught and classified; keep stderr quiet
-    std::panic::set_hook(Box::new(|_| {}));
+    if std::env::var("VERIF_DEBUG").is_err() {
+        std::panic::set_hook(Box::new(|_| {}));
+    }
     match args[1].as_str() {
         "selftest" => selftest::run(&cfg),
         "c12" => c12::run(&cfg),
+        "c11" => c11::run(&cfg),
+        "c01" => lin::run_c01(&cfg),
+        "c04" => lin::run_c04(&cfg),
+        "c06" => lin::run_c06(&cfg),
+        "c20" => lin::run_c20(&cfg),
         other => {
             eprintln!("unknown command {other}");
             std::process::exit(2);
